@@ -26,7 +26,8 @@ Monitors (name = <simulator>.<clause>)
 
 Scope notes: birth-death trees are checked for the tip-count stopping rule without gsa_ntax and with extinct
 lineages pruned, as the property says; the other stopping rules / options, discrete_birth_death_tree and the
-random-variate helpers are only checked for determinism and for leaving the global generators alone.
+random-variate helpers are only checked for determinism and for leaving the global generators alone (exceptions
+raised there are recorded as notes, not as violations).
 """
 import json
 import random as _random
@@ -219,11 +220,13 @@ def eval_bdopt(cfg, seed):
         return f(cfg["b"], cfg["d"], **kw)
 
     outs, touched = two_runs(invoke, seed)
-    # the documented error when every lineage dies and repeat_until_success is off
-    allow = ()
-    if cfg["kw"].get("repeat_until_success", name != "discrete_birth_death_tree") is False:
-        allow = (dperror.TreeSimTotalExtinctionException,)
-    fails, _ = common_monitors(name, outs, touched, T.tree_dump, allow_exc=allow)
+    # Outside the property's quantifier (other stopping rules, GSA, retained extinct tips, the discrete-time simulator):
+    # only determinism and the global generators are judged.  Exceptions other than the documented total-extinction
+    # error are passed on as observations ("NOTE:" entries become ctx.note lines, not violations).
+    fails, _ = common_monitors(name, outs, touched, T.tree_dump, allow_exc=(Exception,))
+    a = outs[0]
+    if a[0] == "exc" and not isinstance(a[1], dperror.TreeSimTotalExtinctionException):
+        fails.append(("NOTE:" + name + ".raises", _exc(a[1])))
     return fails
 
 
@@ -532,7 +535,7 @@ def blocks(seq, n):
 def gen_items(ctx):
     quick = ctx.tier != "thorough"
     items = []
-    nseeds = 200 if quick else 3000
+    nseeds = 200 if quick else 2000
     # ---- birth-death, tip-count rule
     sc = "birth_death@seeds"
     Ns = [1, 2, 3, 4, 5, 6, 8, 12, 20] + ([] if quick else [35, 60])
@@ -577,7 +580,7 @@ def gen_items(ctx):
     for sim, b, d, kw in opts:
         for blk in blocks(range(nseeds // 4), 50):
             items.append((sc, "bdopt", dict(sim=sim, b=b, d=d, kw=kw), blk, True))
-    # more tips than taxa in the supplied namespace (documented: new taxa are created); three seeds
+    # more tips than taxa in the supplied namespace (documented: new taxa are created); three seeds; observation only
     items.append((sc, "bdopt", dict(sim="discrete_birth_death_tree", b=0.3, d=0.0, kw=dict(ntax=6, ns=2, repeat_until_success=True)), [0, 1, 2], True))
     # ---- pure birth
     sc = "uniform_pure_birth@seeds"
@@ -600,7 +603,7 @@ def gen_items(ctx):
                     items.append((sc, "kingman", dict(fn=fn, n=n, pop=pop), blk, n >= 3))
     # ---- gene trees in species trees
     sps = species_descs(quick)
-    gseeds = 40 if quick else 400
+    gseeds = 40 if quick else 240
     sc = "contained@seeds"
     ctx.scope(sc, "contained_coalescent_tree x %d species trees (every shape with 2..%d leaves + some 5-leaf + one unifurcation; exactly ultrametric / "
                   "not ultrametric / zero-length internal edges) x genes per species in {1,2,3,mixed} x population sizes in {default, "
@@ -649,18 +652,24 @@ PER_CFG = 1  # witnesses reported per (monitor, parameter setting); further fail
 
 def t2(ctx):
     items = gen_items(ctx)
-    seen, extra = {}, {}
+    seen, extra, observed = {}, {}, {}
     for scope, kind, cfg, prefix, nontrivial, results in pmap(run_block, items, chunksize=4):
         for seed, fails in results:
             key = "%s|seed=%d" % (prefix, seed)
             ctx.case(scope, key, nontrivial=nontrivial, sample=key)
             for mon, detail in fails:
+                if mon.startswith("NOTE:"):
+                    observed.setdefault((mon[5:], prefix, detail), []).append(seed)
+                    continue
                 k = (mon, prefix)
                 seen[k] = seen.get(k, 0) + 1
                 if seen[k] > PER_CFG:
                     extra[mon] = extra.get(mon, 0) + 1
                     continue
                 ctx.fail(mon, {"key": key, "kind": kind, "cfg": cfg, "seed": seed, "scope": scope}, detail=detail)
+    for (mon, prefix, detail), seeds in sorted(observed.items()):
+        ctx.note("outside the property's quantifier, not judged: %s on %s for %d seed(s), first %d: %s" % (mon, prefix, len(seeds), seeds[0], detail))
+        print("  (not judged, outside the quantifier: %s %s seeds %r...: %s)" % (mon, prefix, seeds[:3], detail))
     for mon in sorted(extra):
         ctx.note("%s: %d further failing seeds not listed (the first %d seeds of each parameter setting are)" % (mon, extra[mon], PER_CFG))
         print("  (%s: %d further failing seeds of already reported parameter settings)" % (mon, extra[mon]))
